@@ -2,7 +2,8 @@
 //
 // Op language (stateful; one chain per `reset`):
 //
-//	reset <era>              fresh Committee; era 0 = old CR rules, era 1 = ChangeCommitteeNewCRHeight 0
+//	reset <era>              fresh Committee; era 0 = old CR rules, era 1 = ChangeCommitteeNewCRHeight 0,
+//	                         era 2 = era 0 with ProposalCRVotingPeriod 11 (proposal windows reach over a committee change)
 //	blk <h> <tx> <tx> …      ProcessBlock of a block built from symbolic transactions; a transaction that
 //	                         the (real or mirrored) context check rejects against the state before the block
 //	                         is dropped, exactly as the node would never have it in a block
@@ -10,7 +11,7 @@
 //	         retdep:<i> fund:<e|a>:<amount>
 //	         prop:<id>:<member> review:<id>:<member>:<a|r> rejvote:<v>:<id>:<amount>
 //	         track:<id>:<p|r|t|f>:<stage> withdraw:<id> impeach:<v>:<member>:<amount>
-//	rb <k>                   Committee.RollbackTo(k), compared leaf by leaf (KeyFrame, StateKeyFrame,
+//	rb <k>                   Checkpoint.OnRollbackTo(k) (the entry the node uses; = Committee.RollbackTo(k) for k >= CRVotingStartHeight), compared leaf by leaf (KeyFrame, StateKeyFrame,
 //	                         ProposalKeyFrame) with a FRESH Committee that processed only blocks <= k
 //
 // Output: `h=<state.History.Height()> n=<distinct heights stored>`; the verdict same / diff goes to the oracle.
@@ -118,6 +119,7 @@ type world struct {
 	era     int
 	params  *config.Configuration
 	cm      *crstate.Committee
+	ckp     *crstate.Checkpoint // the node's entry point for rollbacks (core/checkpoint.Manager -> OnRollbackTo)
 	chain   *blockchain.BlockChain
 	height  uint32
 	blocks  []blockDesc
@@ -155,6 +157,11 @@ func newWorld(era int) *world {
 	if era == 1 {
 		p.CRConfiguration.ChangeCommitteeNewCRHeight = 0
 	}
+	if era == 2 {
+		// a CR-vote window longer than the voting period: a proposal registered on the last allowed
+		// height before the voting period (31) expires in the block that changes the committee (42)
+		p.CRConfiguration.ProposalCRVotingPeriod = 11
+	}
 	ww := &world{era: era, params: p, voteTxs: map[int]interfaces.Transaction{}, props: map[int]common.Uint256{},
 		regTxs: map[int]interfaces.Transaction{}, spent: map[common.Uint256]bool{}}
 	ckp := checkpoint.NewManager(p)
@@ -189,6 +196,7 @@ func newWorld(era int) *world {
 	chain.SetState(st)
 	chain.SetCRCommittee(cm)
 	ww.cm, ww.chain = cm, chain
+	ww.ckp = crstate.NewCheckpoint(cm)
 	return ww
 }
 
@@ -741,7 +749,7 @@ func exec(t []string) string {
 				delete(w.reUnreg, hh)
 			}
 		}
-		err := w.cm.RollbackTo(k)
+		err := w.ckp.OnRollbackTo(k) // = Committee.RollbackTo(k) for k >= CRVotingStartHeight, a reset below it
 		if w.noteCandidates() {
 			w.replaced = true // the rollback created Candidate objects no block ever created
 		}
@@ -867,7 +875,7 @@ func oracle(t []string, out string) *hx.Violation {
 func gen(g *hx.Gen) {
 	r := g.R
 	for it := 0; it < g.N(90, 1500); it++ {
-		era := r.Intn(2)
+		era := r.Intn(3)
 		g.Emit("reset %d", era)
 		h := uint32(0)
 		votes, props := 0, 0
@@ -967,6 +975,9 @@ func gen(g *hx.Gen) {
 		for i := len(heights) - 2; i >= 0 && steps < 12; i-- {
 			g.Emit("rb %d", heights[i])
 			steps++
+		}
+		if r.Chance(40) && len(heights) > 1 {
+			g.Emit("rb 1") // exactly CRVotingStartHeight: still a rollback, not a reset
 		}
 	}
 }
